@@ -272,7 +272,11 @@ def run_scenarios(fa, res, codec, tier):
     nb, db = names.resolve(BS)
     for label, recs6, iv in (("one-record-above-1MiB", [{"i": 1, "b": bytes(range(256)) * 4100, "s": "x"}, {"i": 2, "b": b"", "s": "y"}], 16000),
                              ("many-records-one-block-above-1MiB", [{"i": i, "b": bytes([i % 251]) * 3000, "s": "s%d" % i} for i in range(400)], 1 << 30),
-                             ("string-above-1MiB", [{"i": 3, "b": b"q", "s": "é" * 600000}], 1)):
+                             ("string-above-1MiB", [{"i": 3, "b": b"q", "s": "é" * 600000}], 1),
+                             # long runs that compress to almost nothing, a few bytes past multiples of 64 KiB
+                             ("zeros-64KiB+1", [{"i": 4, "b": bytes(65536 + 1 - 8), "s": "z"}], 1), ("zeros-64KiB+2", [{"i": 4, "b": bytes(65536 + 2), "s": ""}], 1),
+                             ("zeros-128KiB+3", [{"i": 4, "b": bytes(131072 + 3), "s": ""}, {"i": 5, "b": bytes(65537), "s": "t"}], 16000),
+                             ("zeros-many-small", [{"i": i, "b": bytes(4093), "s": ""} for i in range(40)], 1 << 30)):
         info = {"schema": BS, "records": f"<{label}>", "codec": codec, "sync_interval": iv, "axis": "scenario:" + label}
         note_case(info)
         keys.add(("big", label))
@@ -445,6 +449,61 @@ def run_scenarios(fa, res, codec, tier):
                 got = f"{type(e).__name__}: {e}"
             if got != small9:
                 res.add(Violation("c04.read", "records-differ:write_block", f"blocks ({touched}) copied into a {target_codec} file read back as {short(got, 200)}", info))
+    # (14) other legitimate byte streams: a read-only byte stream whose `mode` attribute is 'r' (a zip archive member); the
+    # write end of an OS pipe (a real descriptor that supports neither seek nor fsync)
+    fo = io.BytesIO()
+    fa.writer(fo, copy.deepcopy(BS), copy.deepcopy(small9), codec=codec, sync_marker=marker)
+    data14 = fo.getvalue()
+
+    class ZipMember:
+        mode = "r"
+        name = "member.avro"
+
+        def __init__(self, data):
+            self._b = io.BytesIO(data)
+
+        def read(self, n=-1):
+            return self._b.read(n)
+
+        def readable(self):
+            return True
+
+        def seekable(self):
+            return False
+
+    info = {"schema": BS, "records": "<7 small>", "codec": codec, "sync_interval": 16000, "axis": "scenario:stream-with-mode-r"}
+    note_case(info)
+    keys.add(("mode-r",))
+    res.evals += 1
+    try:
+        got = list(fa.reader(ZipMember(data14)))
+    except Exception as e:
+        got = f"{type(e).__name__}: {e}"
+    if got != small9:
+        res.add(Violation("c04.read", "records-differ:stream-with-mode-r", f"a byte stream whose mode attribute is 'r': {short(got, 200)}", info))
+    import threading
+
+    info = {"schema": BS, "records": "<7 small>", "codec": codec, "sync_interval": 16000, "axis": "scenario:os-pipe-sink"}
+    note_case(info)
+    keys.add(("os-pipe",))
+    res.evals += 1
+    rfd, wfd = os.pipe()
+    chunks = []
+    t = threading.Thread(target=lambda: chunks.append(os.fdopen(rfd, "rb").read()))
+    t.start()
+    try:
+        with os.fdopen(wfd, "wb") as sink:
+            fa.writer(sink, copy.deepcopy(BS), copy.deepcopy(small9), codec=codec, sync_marker=marker)
+        err = None
+    except Exception as e:
+        err = f"{type(e).__name__}: {e}"
+    t.join(10)
+    try:
+        got = list(fa.reader(io.BytesIO(chunks[0]))) if chunks and err is None else err
+    except Exception as e:
+        got = f"{type(e).__name__}: {e}"
+    if got != small9:
+        res.add(Violation("c04.read", "records-differ:os-pipe-sink", f"written into the write end of an OS pipe: {short(got, 200)}", info))
     res.distinct = len(keys)
     res.sample({"scenarios": sorted(map(str, keys))[:4], "codec": codec})
     return res
